@@ -85,6 +85,7 @@ OPTIONS_AFFECTING_CACHE: Final = (
         # rendered diagnostics that are stored in the cache and replayed on a warm run.
         "hide_error_codes",  # decides whether the show_error_code_links notes are generated
         "many_errors_threshold",
+        "report_deprecated_as_note",
         "reveal_verbose_types",
         "semantic_analysis_only",
         "show_absolute_path",
